@@ -128,6 +128,21 @@ def op_script(chk, rng, cfg, script):
                     if dd:
                         fails.append(f"restored calibrator differs from the saved one at {dd[:4]}")
                     cal = r
+                elif op[0] == "NEWX":
+                    # a different run (another seed, another option of the loss) runs WITHOUT saving folder for a few batches and is then
+                    # checkpointed explicitly into the used folder: every file there must be replaced by this run's
+                    other_loss = {"minkowski": "minkowski_p1", "minkowski_p1": "minkowski", "msm": "msm_std", "msm_std": "msm"}.get(cfg["loss"], "minkowski_p1")
+                    cfg2 = dict(cfg, seed=cfg["seed"] + 1, loss=other_loss)
+                    cal = twin.build(cfg2, None)
+                    cal.calibrate(op[1])
+                    cal.create_checkpoint(folder)
+                    saved = deep(cal)
+                    r = Calibrator.restore_from_checkpoint(folder, model=twin.toy_model)
+                    dd = diff(saved, deep(r))
+                    if dd:
+                        fails.append(f"another run checkpointed explicitly (after {op[1]} batches) into a used folder: restored state differs at {dd[:3]}")
+                    cal = r
+                    saved = None
                 elif op[0] == "NEW":
                     # a different run starts in the same folder
                     cfg2 = dict(cfg, seed=cfg["seed"] + 1)
@@ -233,6 +248,40 @@ def other_process_takes_over(chk: Check, rng):
             chk.fail(f"a folder rewritten by another process in between: saved series ids {a2}, restored {ser}", {"case": {"kind": "other-process", "a1": a1, "b": b, "a2": a2}})
 
 
+def two_live_calibrators(chk: Check, rng):
+    """two calibrator objects of DIFFERENT runs (same line-up and shapes, other seed) alive in one process and taking turns in one saving folder:
+    after each calibrate() the folder must hold the state of the calibrator that just returned — whatever either object remembers about its own
+    earlier writes there"""
+    from black_it.calibrator import Calibrator
+    from vp.deep import deep, diff
+    for it in range(3 if chk.tier == "quick" else 30):
+        bs = rng.randint(1, 3)
+        cfg_a = {"lineup": [("HaltonSampler", bs, None), ("RandomUniformSampler", bs, None)], "dims": rng.randint(1, 3), "loss": rng.choice(["minkowski", "msm"]),
+                 "ensemble": rng.randint(1, 2), "seed": rng.randrange(10 ** 6), "n_jobs": 1}
+        cfg_b = {**cfg_a, "seed": cfg_a["seed"] + 1}
+        folder = tempfile.mkdtemp(prefix="vpc04two")
+        turns = []
+        try:
+            with contextlib.redirect_stdout(io.StringIO()), warnings.catch_warnings():
+                warnings.simplefilter("ignore")
+                a, b = twin.build(cfg_a, folder), twin.build(cfg_b, folder)
+                order = [a, b, a, b, a] if it % 2 == 0 else [a, b, b, a, a]
+                for k, cal in enumerate(order):
+                    cal.calibrate(1)
+                    who = "A" if cal is a else "B"
+                    turns.append(who)
+                    got = Calibrator.restore_from_checkpoint(folder, model=twin.toy_model)
+                    dd = diff(deep(cal), deep(got))
+                    if dd:
+                        chk.fail(f"two runs taking turns in one folder ({''.join(turns)}): after calibrate() of run {who} returned, the folder does not hold its state: {dd[:3]}",
+                                 {"case": {"kind": "two_live", "cfg": cfg_a, "turns": turns}})
+                        break
+        finally:
+            shutil.rmtree(folder, ignore_errors=True)
+        chk.case(["two-live", cfg_a, turns], True, {"turns": "".join(turns), "batch_size": bs})
+        chk.count("two_live_calibrators_taking_turns_in_one_folder")
+
+
 def run(chk: Check):
     rng = chk.rng
     chk.rule = ("(i) serialiser contracts: random floats (mantissa x exponent, grid-like decimals, subnormals, 1e+-300, +-inf, -0.0) through the real CSV/JSON/HDF5 "
@@ -256,11 +305,12 @@ def run(chk: Check):
             script.append(("C", rng.randint(0 if not script else 1, 3)) if k == "C" else (k,))
         if i % 4 == 1:
             # many parameters: column names of the results table with two digits (params_samp_10 sorts before params_samp_2 as a string)
-            cfg["dims"] = rng.choice([10, 11, 12, 13, 24])
+            cfg["dims"] = rng.choice([11, 12, 13, 24])
             cfg["lineup"] = [(nm, bs, cs) for nm, bs, cs in cfg["lineup"] if nm in ("HaltonSampler", "RandomUniformSampler", "RSequenceSampler", "BestBatchSampler")] \
                 or [("HaltonSampler", 3, None)]
             if cfg["lineup"][0][0] == "BestBatchSampler":
                 cfg["lineup"].insert(0, ("HaltonSampler", 4, None))
+            script = [("C", rng.randint(1, 3)), ("R",), ("C", rng.randint(1, 2)), ("K",), ("R",)]      # always restored after batches were run
             chk.count("wide:dims>=10")
         if i % 3 == 2:
             # explicit checkpoints several batches apart onto an earlier checkpoint of the same run, no saving folder
@@ -271,6 +321,8 @@ def run(chk: Check):
             script = [("K",), ("R",), ("C", 2), ("R",)]          # zero-batch checkpoint, then continue
         if i % 7 == 3:
             script = [("C", rng.randint(2, 3)), ("NEW", rng.randint(1, 4))]
+        if i % 7 == 6:
+            script = [("C", rng.randint(1, 3)), ("NEWX", rng.randint(2, 4)), ("C", 1), ("K",), ("R",)]
         fails, known = op_script(chk, rng, cfg, script)
         chk.case([cfg, script], any(o[0] == "R" for o in script), {"lineup": [x[0] for x in cfg["lineup"]], "loss": cfg["loss"], "script": script})
         chk.count("script:" + "".join(o[0][0] for o in script)[:6])
@@ -293,6 +345,7 @@ def run(chk: Check):
         for t in threading.enumerate():
             pass
     other_process_takes_over(chk, rng)
+    two_live_calibrators(chk, rng)
     # (iii) folder logic vs Lean
     cases = [folder_logic_case(rng) for _ in range(60 if chk.tier == "quick" else 600)]
     reqs = [f"ckpt.saves {len(s)} " + " ".join(f"{k} {len(ids)} " + " ".join(map(str, ids)) + f" {len(ids)} " + " ".join(map(str, ids)) for k, ids in enumerate(s)) for s in cases]
